@@ -55,7 +55,7 @@ Definition unit_vals (_ : unit) : list Z := [].
           33 .read_node_data(i)            34 .free_space()
           40 ArrayView::new                41 .elem_type()                 42 .is_null(i)
           43 .get_int2/4/8|float4/8 (w,i)  44 .get_bool(i)                 45 .get_blob(i)
-          46 .get_text(i)                  47 .len()
+          46 .get_text(i)                  47 .len()                       48 element i as format_array reads it
           50 RecordView::new + OwnedValue::extract_row_from_record, args = the DataType codes of the schema;
              judged by the C31 model (Model/Record.v extract), outcome class only (the values are C31's subject)
    The accessors 11.. / 21.. / 31.. / 41.. are reached through their constructor, as in the code. *)
@@ -112,6 +112,9 @@ Definition run_model (w : Z) (d : list Z) (args key : list Z) : res (list Z) :=
   else if w =? 45 then _ <- array_new d ;; rmap digest (get_blob d i)
   else if w =? 46 then _ <- array_new d ;; rmap digest (get_text d i)
   else if w =? 47 then _ <- array_new d ;; rmap (fun c => [c]) (alen d)
+  else if w =? 48 then _ <- array_new d ;;
+                       rmap (fun e => match e with ENull => [0] | ENum v => [1; v] | EBytes b => 2 :: digest b | EOther => [3] end)
+                            (array_elem d i)
   else if w =? 50 then record_extract_class args d
   else Err.
 
@@ -142,37 +145,12 @@ Definition spec_ok (c : case) : bool :=
   end.
 
 (* ---------------------------------------------------------------- recorded findings (narrow classes)
-   Dec cases: the class is a predicate on the INPUT (decoder, bytes, arguments), the exact condition
-   under which the model of that decoder takes its Panic branch (Proof/PageAccessLeaf.v etc. prove the
-   equivalences):
-     1  leaf: the slot read by slot_at / key_at / value_at / value_len_at lies beyond the page
-        (index < stored cell_count, LEAF_CONTENT_START + 8*index + 8 > PAGE_SIZE)
-     2  leaf value_at: value_data_start + decoded value length overflows usize
-     3  interior: the slot read by slot_at / key_at, or a slot probed by find_child, lies beyond the page
-     4  HNSW get_slot / read_node_data: the slot entry lies beyond the page
-     5  HNSW read_node_data: active slot whose offset + size exceeds the page
-     6  ArrayView::elem_type: type byte that is no DataType discriminant
-     7  ArrayView getters: a position computed from the stored len / offsets lies outside the data
-    14  RecordView (extract_row_from_record): the null bitmap, the offset table or a column slice computed from
-        the stored header length / end offsets lies outside the record bytes (the C31 model panics) *)
-(* the input predicates are those of Model/PageAccess.v / ArrayView.v, restricted to bytes the constructor accepts *)
-Definition accepted {A} (r : res A) : bool := match r with Ok _ => true | _ => false end.
-Definition interior_search_oob (d key : list Z) : bool :=
-  negb (interior_slots_fit d) && is_panic (find_child d key).
-
+   Dec cases.  Classes 1..7 (leaf / interior / HNSW page accessors, ArrayView) were repaired in /repo
+   (c8c46cc, 7292838, 4d4f2e6, 5281222): no decoder of the table may panic any more except
+     14  RecordView (extract_row_from_record): the null bitmap, the offset table or a column slice computed from
+         the stored header length / end offsets lies outside the record bytes (the C31 model panics) *)
 Definition dec_class (w : Z) (d : list Z) (args key : list Z) : Z :=
-  let i := arg args 0 in
-  if ((w =? 12) || (w =? 13) || (w =? 14) || (w =? 15)) && accepted (leaf_from_page d) && leaf_slot_oob d i then 1
-  else if (w =? 14) && accepted (leaf_from_page d) && leaf_value_ovf d i then 2
-  else if ((w =? 21) || (w =? 22)) && accepted (interior_from_page d) && interior_slot_oob d i then 3
-  else if (w =? 23) && accepted (interior_from_page d) && interior_search_oob d key then 3
-  else if ((w =? 32) || (w =? 33)) && accepted (hnsw_from_bytes d) && hnsw_slot_oob d i then 4
-  else if (w =? 33) && accepted (hnsw_from_bytes d) && hnsw_node_oob d i then 5
-  else if (w =? 41) && accepted (array_new d) && array_type_bad d then 6
-  else if ((w =? 42) || (w =? 43) || (w =? 44) || (w =? 45) || (w =? 46))
-          && is_panic (run_model w d args key) then 7
-  else if (w =? 50) && is_panic (run_model w d args key) then 14
-  else 0.
+  if (w =? 50) && is_panic (run_model w d args key) then 14 else 0.
 
 (* Xp cases (exploration, no model): the class is keyed by WHERE the run ended (source file of the panic
    location + message class, abort, watchdog) and by the SHAPE of the input:
@@ -184,12 +162,8 @@ Definition dec_class (w : Z) (d : list Z) (args key : list Z) : Z :=
    site codes (harness file_code): 1 btree/leaf.rs, 2 btree/interior.rs, 3 btree/simd_scan.rs, 9 records/view.rs,
    10 records/jsonb.rs, 11 records/array.rs, 14 sql/decoder.rs, 22 other src/records, 0 outside src;  message classes: 3 arithmetic overflow,
    4 slice / index out of range, 5 unwrap / expect, 7 capacity overflow.
-     8   find_key_simd (simd_scan.rs) indexes the slot array beyond the page: stored cell_count > 2045
-     9   LeafNode / LeafNodeMut (leaf.rs, or slice::copy_within called from it) on a corrupted leaf page of a
-         database file: the database-level reach of classes 1 and 2 and the same unchecked arithmetic in the
-         write path (free_end - free_start, insert_cell, delete_cell)
-     10  InteriorNode (interior.rs) on a corrupted interior page of a database file: reach of class 3
-     11  turdb.catalog: the stored catalog length is allocated unchecked (capacity overflow panic / allocation abort)
+     (classes 8..11 - find_key_simd beyond the page, leaf.rs / interior.rs reached through SQL, the unchecked
+      catalog length - were repaired in /repo: c8c46cc, 7292838, b949e02)
      12  a lookup in a page file whose child pointers / leaf chain were made cyclic never ends (watchdog)
      13  JsonbView accessors slice the entry table / data section unchecked
      14  the row decoders (RecordView getters, sql/decoder.rs schema_fits_record) on record bytes corrupted inside a
@@ -199,26 +173,18 @@ Definition dec_class (w : Z) (d : list Z) (args key : list Z) : Z :=
 Definition fnth (l : list Z) (i : nat) : Z := nth i l 0.
 Definition page_file (k : Z) : bool := (k =? 3) || (k =? 4) || (k =? 5) || (k =? 7).
 Definition xp_class (kind : Z) (feat : list Z) (o : xout) : Z :=
-  if kind =? 1 then
-    match o with XPanic 3 4 => if 2045 <? fnth feat 0 then 8 else 0 | _ => 0 end
-  else if kind =? 3 then
+  if kind =? 3 then
     match o with XPanic 10 _ => 13 | _ => 0 end
   else if kind =? 2 then
     let fk := fnth feat 0 in
     let off := fnth feat 3 * 16384 + fnth feat 4 in
     match o with
     | XPanic site cls =>
-        if page_file fk && (site =? 3) && (cls =? 4) then 8
-        else if page_file fk && (site =? 1) && ((cls =? 3) || (cls =? 4)) then 9
-        else if page_file fk && (site =? 0) && (cls =? 4) then 9     (* copy_within called by insert_cell / delete_cell panics inside core *)
-        else if page_file fk && (site =? 2) && (cls =? 4) then 10
-        else if page_file fk && ((site =? 9) || (site =? 14) || (site =? 22)) && (cls =? 4) then 14
-        else if (fk =? 2) && (off <? 80) && (site =? 0) && (cls =? 7) then 11
+        if page_file fk && ((site =? 9) || (site =? 14) || (site =? 22)) && (cls =? 4) then 14
         else if (fk =? 2) && (128 <=? off) && ((site =? 9) || (site =? 10) || (site =? 11) || (site =? 22)) && (cls =? 4) then 15
         else 0
-    | XAbort => if (fk =? 2) && (off <? 80) then 11 else 0
     | XTimeout => if page_file fk then 12 else 0
-    | XOk _ _ => 0
+    | _ => 0
     end
   else 0.
 
